@@ -8,6 +8,7 @@
 //   max_condition_depth: u32 | null, max_strings_per_rule: usize | null, fail_on_warnings, disable_includes: bool
 //   parse_only: bool (stop after the parser); forget_ast: bool (leak the parsed tree instead of dropping it)
 //   profile: "speed" | "memory";  stack_kb: stack of the worker thread (default 1024);  wall_s: cap (default 20)
+//   steps: [{"text_hex": .., "ns": null|str}]  instead of text_hex: a session on one compiler, see work_steps
 // Result: {"parse": "ok"|"err:<message>", "compile": "ok"|"err:<message>", "spans_ok": bool, "span_problem": str,
 //          "rendered": bool, "scan": "ok"|"skipped"|"err:..", "nrules": n, "ms": elapsed}
 //         | {"panic": msg} | {"crash": "<exit status>" | "timeout", "stderr": ..}
@@ -143,6 +144,79 @@ fn work(case: &Value) -> Value {
            "ms": t0.elapsed().as_millis() as u64})
 }
 
+/// Several texts added one after the other to ONE compiler (some are expected to be refused), then finalize and
+/// scan: error paths must not leave the compiler in a state that makes a later accepted rule set unusable.
+/// Case: steps: [{"text_hex": .., "ns": null|str}], other fields as for a single text.
+/// Result: {"steps": ["ok"|"err:<message>"], "compile": "ok" when every step was accepted else the first error,
+///          "scan": .., "matched": [[ns, name]], "nrules": n, ...}
+fn work_steps(case: &Value) -> Value {
+    let t0 = Instant::now();
+    let mut problems = Vec::new();
+    let mut rendered = true;
+    let mut b = CompilerBuilder::new();
+    if case["profile"].as_str() == Some("memory") {
+        b = b.profile(CompilerProfile::Memory);
+    }
+    let mut c = b.build();
+    let mut p = CompilerParams::default();
+    if let Some(v) = case["max_condition_depth"].as_u64() {
+        p = p.max_condition_depth(v as u32);
+    }
+    if let Some(v) = case["expr_limit"].as_u64() {
+        p = p.parse_expression_recursion_limit(v as u8);
+    }
+    if let Some(v) = case["fail_on_warnings"].as_bool() {
+        p = p.fail_on_warnings(v);
+    }
+    c.set_params(p);
+    let mut steps = Vec::new();
+    for st in case["steps"].as_array().unwrap() {
+        let text = String::from_utf8_lossy(&get_bytes(st, "text_hex")).to_string();
+        let res = match st["ns"].as_str() {
+            Some(ns) => c.add_rules_str_in_namespace(&text, ns),
+            None => c.add_rules_str(&text),
+        };
+        steps.push(match res {
+            Ok(status) => {
+                for w in status.warnings() {
+                    for l in &w.to_diagnostic().labels {
+                        check_range(&l.range, &text, "warning label", &mut problems);
+                    }
+                }
+                "ok".to_string()
+            }
+            Err(e) => {
+                let d = e.to_diagnostic();
+                for l in &d.labels {
+                    check_range(&l.range, &text, "compile error label", &mut problems);
+                }
+                if format!("{e}").is_empty() {
+                    rendered = false;
+                }
+                format!("err:{}", d.message)
+            }
+        });
+    }
+    let mut scanner = c.finalize();
+    let nrules = scanner.rules().count();
+    scanner.set_scan_params(
+        boreal::scanner::ScanParams::default().timeout_duration(Some(Duration::from_secs(2))),
+    );
+    let mut matched = Vec::new();
+    let scan = match scanner.scan_mem(b"abcdefghijklmnopqrstuvwxyz0123456789 \x00\x01\xff GET /index.html") {
+        Ok(r) => {
+            matched = r.rules.iter().map(|r| json!([r.namespace, r.name])).collect();
+            "ok".to_string()
+        }
+        Err((boreal::scanner::ScanError::Timeout, _)) => "ok".to_string(),
+        Err((e, _)) => format!("err:{e:?}"),
+    };
+    let compile = steps.iter().find(|s| s.as_str() != "ok").cloned().unwrap_or_else(|| "ok".to_string());
+    json!({"steps": steps, "parse": "n/a", "compile": compile, "spans_ok": problems.is_empty(),
+           "span_problem": problems.join("; "), "rendered": rendered, "scan": scan, "matched": matched,
+           "nrules": nrules, "ms": t0.elapsed().as_millis() as u64})
+}
+
 fn child() {
     let mut s = String::new();
     std::io::stdin().read_to_string(&mut s).unwrap();
@@ -151,7 +225,7 @@ fn child() {
     std::panic::set_hook(Box::new(|_| {}));
     let h = std::thread::Builder::new()
         .stack_size(kb * 1024)
-        .spawn(move || work(&case))
+        .spawn(move || if case["steps"].is_array() { work_steps(&case) } else { work(&case) })
         .unwrap();
     let out = match h.join() {
         Ok(v) => v,
